@@ -58,7 +58,8 @@ func (*Prop) ID() string { return "C14" }
 
 var hostile = []string{"plain", "comma,separated", "tab\tseparated", "quote\"inside", "'single'", "new\nline", "cr\rreturn", "crlf\r\nline",
 	"nul\x00byte", "emoji 😀 非BMP 𝔘", "{\"json\":\"looking\"}", "[1,2,3]", "back\\slash", "pipe|bar", "  leading and trailing  ", "",
-	"semi;colon", "=cmd|' /C calc'!A0", "<tag attr=\"v\">", "\u2028line sep", "é combining é", "null", "true", "12345", "-0.5e10", "#hash", "\ufeffbom"}
+	"semi;colon", "=cmd|' /C calc'!A0", "<tag attr=\"v\">", "\u2028line sep", "é combining é", "null", "true", "12345", "-0.5e10", "#hash", "\ufeffbom",
+	"ÉCOLE Ärger ΩMEGA", "straße İstanbul", "ǅ titlecase"}
 
 func makeChunks(sp *Spec) ([]*rag.Chunk, [][]float64) {
 	r := sim.NewRand(sp.Seed)
@@ -129,7 +130,7 @@ func (p *Prop) Generate(base uint64, index int, env *sim.Env) *sim.Case {
 		sp.N = sim.Pick(r, []int{0, 1, 2})
 	}
 	if r.Pct(30) {
-		all := []string{"document_title", "page_start", "chunk_index", "section_title", "section_path", "element_types", "level", "word_count", "parent_id", "nonexistent"}
+		all := []string{"document_title", "page_start", "chunk_index", "section_title", "section_path", "element_types", "level", "word_count", "parent_id", "heading_level", "total_chunks", "char_count", "estimated_tokens", "nonexistent"}
 		for _, f := range all {
 			if r.Pct(40) {
 				sp.Fields = append(sp.Fields, f)
@@ -411,15 +412,64 @@ func checkCSV(sp *Spec, data []byte, chunks []*rag.Chunk, cfg rag.ExportConfig) 
 			}
 		}
 		if sp.IncludeMeta {
-			if v, ok := get(row, "meta_parent_id"); ok && v != normCRLF(c.Metadata.ParentID) {
-				return fmt.Sprintf("row %d: meta_parent_id = %q, chunk has %q", i, v, c.Metadata.ParentID)
-			}
-			if v, ok := get(row, "meta_word_count"); ok && c.Metadata.WordCount > 0 && v != strconv.Itoa(c.Metadata.WordCount) {
-				return fmt.Sprintf("row %d: meta_word_count = %q, chunk has %d", i, v, c.Metadata.WordCount)
+			// scalar metadata: a key that any chunk of this export carries must have its
+			// column, and every row must hold its chunk's value (empty when the chunk has none)
+			for _, sc := range scalarMeta(c) {
+				if !fieldWanted(sp, sc.key) {
+					continue
+				}
+				v, ok := get(row, "meta_"+sc.key)
+				if !ok {
+					if anyHas(chunks, sc.key) {
+						return fmt.Sprintf("a chunk of this export has metadata %q but the output has no column meta_%s", sc.key, sc.key)
+					}
+					continue
+				}
+				if v != normCRLF(sc.val) {
+					return fmt.Sprintf("row %d: meta_%s = %q, chunk has %q", i, sc.key, v, sc.val)
+				}
 			}
 		}
 	}
 	return ""
+}
+
+type scalar struct{ key, val string }
+
+// scalarMeta lists the scalar metadata of a chunk the way the exporter documents
+// them: a key is present when its value is non-zero.
+func scalarMeta(c *rag.Chunk) []scalar {
+	itoa := func(n int) string {
+		if n > 0 {
+			return strconv.Itoa(n)
+		}
+		return ""
+	}
+	return []scalar{{"parent_id", c.Metadata.ParentID}, {"heading_level", itoa(c.Metadata.HeadingLevel)}, {"total_chunks", itoa(c.Metadata.TotalChunks)},
+		{"char_count", itoa(c.Metadata.CharCount)}, {"word_count", itoa(c.Metadata.WordCount)}, {"estimated_tokens", itoa(c.Metadata.EstimatedTokens)}}
+}
+
+func anyHas(chunks []*rag.Chunk, key string) bool {
+	for _, c := range chunks {
+		for _, sc := range scalarMeta(c) {
+			if sc.key == key && sc.val != "" {
+				return true
+			}
+		}
+	}
+	return false
+}
+
+func fieldWanted(sp *Spec, key string) bool {
+	if sp.Fields == nil {
+		return true
+	}
+	for _, f := range sp.Fields {
+		if f == key {
+			return true
+		}
+	}
+	return false
 }
 
 func first(row []string) string {
@@ -858,7 +908,7 @@ func (p *Prop) filterCheck(sp *Spec, chunks []*rag.Chunk, fail func(string, stri
 			got = cc.FilterByMaxTokens(arg * 8)
 			pred = func(c *rag.Chunk) bool { return c.Metadata.EstimatedTokens <= arg*8 }
 		case "search":
-			kw := sim.Pick(r, []string{"COMMA", "quote", "#1", "😀", "\n", "json", ""})
+			kw := sim.Pick(r, []string{"COMMA", "quote", "#1", "😀", "\n", "json", "", "école", "ärger", "ωmega", "É", "STRASSE", "Ω"})
 			got = cc.Search(kw)
 			pred = func(c *rag.Chunk) bool { return strings.Contains(strings.ToLower(c.Text), strings.ToLower(kw)) }
 		default: // chain
